@@ -27,10 +27,11 @@ def wire_ok(b):
 def main(pid, argv):
     ck = V.Check(pid, argv)
     ck.rule = ("(a) senders: generated parameter values (nested trees, Go maps, json.Number, json.RawMessage with whitespace, strings with NUL/quotes/control/"
-               "non-BMP/invalid UTF-8, sizes up to several MiB, depth up to 2000) x reply kinds (plain, continues, error) through the service's reply marshalling "
+               "non-BMP/invalid UTF-8, sizes up to 300 KiB in the quick tier and several MiB in the thorough tier, depth up to 2000) x reply kinds (plain, continues, error) through the service's reply marshalling "
                "and through Connection.Send into a recording connection; (b) receivers: real client <-> real service through a re-segmenting proxy (1-byte writes; "
                "pseudo-random cuts up to 9000 bytes; pauses of 150 ms inside a frame while the receiver's context has no deadline) with frames from a few bytes to > 64 KiB in both directions; (c) the replies the service builds itself (standard errors, GetInfo, descriptions) for method strings and interface names "
-               "with BEL, VT, DEL, NUL, ESC, U+2028, U+E0001, BOM, invalid UTF-8. distinct = distinct cases; non-trivial = value with "
+               "with BEL, VT, DEL, NUL, ESC, U+2028, U+E0001, BOM, invalid UTF-8, and pipelined calls whose segments arrive 40 ms apart while a `more` handler is still "
+               "producing its replies. distinct = distinct cases; non-trivial = value with "
                "a string or nesting")
     ck.assumptions = ["bufio's buffer discipline is modelled (capacity parameter); the kernel may coalesce or split the proxy's writes further, which the theorem covers (any partition)"]
     ck.check_obligations()
@@ -57,7 +58,7 @@ def main(pid, argv):
         sends.append("%d %s %s" % (rng.choice([0, 0, 1, 2, 8, 3, 9, 10, 4, 15]), V.hexs(rng.choice([b"a.b.M", b"", J.rand_string(rng), b"org.varlink.service.GetInfo"])), d))
     big = []
     for kind in (["bigstring", "deep", "wide"] * (4 if thorough else 1)):
-        big.append("%s 0 -" % J.big_value(rng, kind))
+        big.append("%s 0 -" % J.big_value(rng, kind, small=not thorough))
     replies += big
     for mode, mmode, lines in (("reply", "reply-enc", replies), ("send", "send-enc", sends)):
         rc, impl, err = V.run_lines([bins["h_json"], mode], lines, timeout=1800)
@@ -136,6 +137,29 @@ def main(pid, argv):
             calls.append(C.Call(method, params))
             data += S.call_bytes(rng, method, params, False, False, False) + b"\x00"
         secs.append("conn half %s" % ",".join(c.hex() for c in S.segment(rng, data)))
+        scases.append(" | ".join(secs))
+        smeta.append(calls)
+        meta_of[scases[-1]] = meta
+    # a `more` call whose handler takes a while, with the following calls already on their way: the bytes that follow the call in the
+    # same segment, and those that arrive while the handler runs, must still be read in order
+    for i in range(150 if thorough else 24):
+        secs = ["svc 76 70 31 75 -", "iface %s %s" % (S.hx(b"a.b"), S.hx(b"interface a.b\nmethod M() -> ()"))]
+        steps = [S.Step("r", "e", cont=True, val="{6e:D31;}"), S.Step("w", "c", arg=b"70"), S.Step("r", "e", cont=True, val="{6e:D32;}"), S.Step("w", "c", arg=b"70"),
+                 S.Step("r", "e", val="{6e:D33;}")]
+        secs.append(S.script_text(b"a.b.Slow", steps, False))
+        secs.append(S.script_text(b"a.b.Fast", [S.Step("r", "e", val="{66:T}")], False))
+        meta = dict(registry=[b"a.b"], descrs={S.SVC: C.svc_descr(), b"a.b": b"interface a.b\nmethod M() -> ()"},
+                    scripts={b"a.b.Slow": (steps, False), b"a.b.Fast": ([S.Step("r", "e", val="{66:T}")], False)},
+                    info={"vendor": "v", "product": "p", "version": "1", "url": "u", "interfaces": [S.SVC.decode(), "a.b"]}, comparable=True)
+        calls = [C.Call(b"a.b.Slow", b"{}", more=True)] + [C.Call(rng.choice([b"a.b.Fast", b"org.varlink.service.GetInfo"]), None) for _ in range(rng.choice([1, 2, 4]))]
+        frames = [S.call_bytes(rng, c.method, c.params, c.more, False, False) + b"\x00" for c in calls]
+        data = b"".join(frames)
+        # cut points: inside / right after the first frame, then a few more: every chunk is sent 40 ms after the previous one
+        a = len(frames[0])
+        cutset = sorted({a + rng.choice([1, 2, 5]), a + rng.randrange(1, max(2, len(data) - a)), rng.randrange(1, len(data))} | ({a} if i % 3 == 0 else set()))
+        cutset = [c for c in cutset if 0 < c < len(data)]
+        chunks = [data[x:y] for x, y in zip([0] + cutset, cutset + [len(data)])]
+        secs.append("conn slow %s" % ",".join(c.hex() for c in chunks))
         scases.append(" | ".join(secs))
         smeta.append(calls)
         meta_of[scases[-1]] = meta
